@@ -288,7 +288,7 @@ def _perp(axis):
 def gen_shape_program(rs: Stream, cfg_seed: int) -> Dict[str, Any]:
     """Realistic curved topologies built by the library's own shapes; the reference model
     judges them from the operations' points and chops read before assembly."""
-    kind = rs.pick(["cylinder", "frustum", "ring", "hemisphere", "cyl_cyl", "cyl_ring", "cyl_hemi", "cyl_frustum", "ring_ring"])
+    kind = rs.pick(["cylinder", "frustum", "ring", "hemisphere", "cyl_cyl", "cyl_ring", "cyl_hemi", "cyl_frustum", "ring_ring", "tjoint", "ljoint", "stack"])
     o = [round(rs.uniform(-3, 3), 3) for _ in range(3)]
     ax = [rs.uniform(-1, 1) for _ in range(3)]
     n = math.sqrt(sum(x * x for x in ax)) or 1.0
@@ -308,6 +308,22 @@ def gen_shape_program(rs: Stream, cfg_seed: int) -> Dict[str, Any]:
         ops.append({"op": "shape", "name": "s0", "kind": "ring", "args": {"p1": o, "p2": p2, "r_out": rp, "r_in": R * rs.uniform(0.3, 0.7), "n": rs.pick([4, 5, 8])}})
     elif kind == "hemisphere":
         ops.append({"op": "shape", "name": "s0", "kind": "hemisphere", "args": {"c": o, "r": rp, "n": ax}})
+    elif kind in ("tjoint", "ljoint"):
+        ops.append({"op": "shape", "name": "s0", "kind": kind, "args": {"start": o, "center": [o[i] + 2.5 * R * ax[i] for i in range(3)], "r": [o[i] + 0.5 * R * pr[i] for i in range(3)]}})
+    elif kind == "stack":
+        n1, n2, rep = rs.randint(1, 3), rs.randint(1, 2), rs.randint(1, 3)
+        ops.append({"op": "shape", "name": "s0", "kind": "stack", "args": {"p1": [o[0], o[1], 0], "p2": [o[0] + 1 + R, o[1] + L, 0], "n1": n1, "n2": n2, "amount": round(L, 3), "repeats": rep}})
+        # chops on a random subset of the stack's operations (the reference decides what that amounts to)
+        cx, cy, cz = rs.randint(2, 5), rs.randint(2, 5), rs.randint(2, 5)
+        for j in range(n1 * n2 * rep):
+            for a, c in ((0, cx), (1, cy), (2, cz)):
+                if rs.chance(0.7):
+                    ops.append({"op": "sub_chop", "target": "s0", "index": j, "axis": a, "args": {"count": c if rs.chance(0.93) else c + 1}})
+        cs = Stream(cfg_seed, "config", "shapes")
+        ops.append({"op": "add", "target": "s0"})
+        ops.append({"op": "assemble"})
+        ops.append({"op": "write", "path": DICT_PATH, "debug": VTK_PATH})
+        return {"points": {}, "ops": ops, "meta": {"shapes": kind, "category": "stack", "cfg_seed": cfg_seed}}
     if kind == "cyl_cyl":
         ops.append({"op": "chain", "name": "s1", "source": "s0", "kind": "cylinder", "args": {"length": rs.uniform(0.5, 2), "start_face": rs.chance(0.3)}})
         shapes.append("s1")
